@@ -162,6 +162,12 @@ def plan(tier, seed):
                 ts = datetime.combine(d, tod).isoformat()
                 for f in canonf:
                     yield ("B",) + f + (ts,)
+        # product Z: timezone-aware reference times around local midnight (the wall clock of that zone is the reference)
+        from .C04 import AWARE_TS
+
+        for f in canonf:
+            for ts in AWARE_TS:
+                yield ("Z",) + f + (ts,)
         # product C: omitted reference time (the datetime class seen by the library is substituted by a clock in a UTC+9 zone) for one form per kind x EDGE_TS
         seen = set()
         for f in canonf:
